@@ -50,7 +50,7 @@ def eqm(obs):
 def hist_nontrivial(case):
     motif = case[4] if len(case) > 4 else ''
     nun = sum(1 for o in case[3][1:] if o[0] == 'union')
-    return motif in ('symmetry', 'redundancy', 'self-reference', 'corpus') or nun >= 2
+    return motif in ('symmetry', 'redundancy', 'self-reference', 'chain', 'corpus') or nun >= 2
 
 
 def describe_history(case):
